@@ -13,7 +13,7 @@
      excl     the program redeclares a name inside one function body: excluded by the property
               (only model = implementation is checked);
      tuples   argument tuples with the implementation's outcome without and with the optimizer. *)
-From P2 Require Import Base.Prelude Sem.Num Sem.Syntax Sem.Ops Sem.Lib Sem.Ref Sem.Gen Sem.Obs Generated.ValueCfg.
+From P2 Require Import Base.Prelude Sem.Num Sem.Syntax Sem.Ops Sem.Lib Sem.Ref Sem.Gen Sem.Sim Sem.Obs Generated.ValueCfg.
 
 Definition c01_fuel : nat := 400.
 
@@ -50,12 +50,35 @@ Definition c01_verdicts (c : c01_case) : list (verdict * verdict * verdict) :=
          (compare_out lazy (model_out A names args) ioff, compare_out lazy s ioff, compare_out lazy s ion))
       tuples.
 
-(* model of the implementation = implementation (optimizer off) on all tuples *)
+(* Generate accepts the program: the parser accepted the text and gen_check the AST *)
+Definition gen_accepts (A : option ast) (names : list name) : bool :=
+  match A with
+  | Some a => gen_check (S (ast_size a)) (map Some names) [] a
+  | None => false
+  end.
+
+Definition is_generr (i : iout) : bool := match i with IGenErr _ => true | _ => false end.
+
+(* model of the implementation = implementation (optimizer off) on all tuples; in addition the
+   model predicts exactly WHEN the error is reported: Generate fails iff gen_check (or the parser)
+   rejects *)
 Definition c01_im (c : c01_case) : bool :=
   let '(_, _, A, names, (lazy, _), tuples) := c in
   forallb (fun t : c01_tuple =>
              let '(args, ioff, _) := t in
+             Bool.eqb (negb (gen_accepts A names)) (is_generr ioff) &&
              verdict_ok (compare_out lazy (model_out A names args) ioff)) tuples.
+
+(* the hypotheses of theorem C01_generated (Props/C01_core.v) on the AST the implementation built:
+   1 = they hold (gen_check and side_ok): compiled = reference is a theorem for this AST;
+   0 = the parser rejected the text; 2 = gen_check rejects (Generate error);
+   3 = Generate accepts but side_ok fails (non-first-order constant or own name among the outer names) *)
+Definition c01_hyp (c : c01_case) : N :=
+  let '(_, _, A, names, _, _) := c in
+  match A with
+  | None => 0
+  | Some a => if gen_accepts A names then (if side_ok a then 1 else 3) else 2
+  end%N.
 
 (* the implementation satisfies the specification side: the reference outcome agrees with BOTH
    implementation outcomes (so an optimizer on/off difference is a violation here too) *)
@@ -92,7 +115,8 @@ Definition c01_explain (c : c01_case) : list (explained * explained) :=
 Definition count {A} (p : A -> bool) (l : list A) : N := N.of_nat (length (filter p l)).
 
 (* [M compared; M unsup; M out of fuel; M laziness; S compared (both outcomes agree); S unsup; S out of fuel;
-    S laziness; S tuples of excluded programs] summed over the tuples of all cases *)
+    S laziness; S tuples of excluded programs] summed over the tuples of all cases, then per case:
+   [hypotheses of C01_generated hold; Generate rejects; outside the side condition] *)
 Definition c01_stats (cases : list c01_case) : list N :=
   let per := flat_map (fun c => let '(_, _, _, _, (_, excl), _) := c in
                                 map (fun v => (excl, v)) (c01_verdicts c)) cases in
@@ -103,7 +127,10 @@ Definition c01_stats (cases : list c01_case) : list N :=
   [ count is_agree m; count is_unsup m; count is_oof m; count is_lazy m;
     count (fun x => is_agree (snd (fst (snd x))) && is_agree (snd (snd x))) incl;
     count is_unsup s1; count is_oof s1; (count is_lazy s1 + count is_lazy s2)%N;
-    N.of_nat (length per - length incl) ].
+    N.of_nat (length per - length incl);
+    count (fun c => N.eqb (c01_hyp c) 1) cases;
+    count (fun c => N.eqb (c01_hyp c) 0 || N.eqb (c01_hyp c) 2) cases;
+    count (fun c => N.eqb (c01_hyp c) 3) cases ].
 
 (* ---- table obligations: the hand-written arity tables of Sem/Lib.v agree with the regenerated ones ---- *)
 
@@ -157,10 +184,10 @@ Definition modelled_list_methods : list name :=
 Definition modelled_map_methods : list name := [n_size; n_get; n_put; n_isAvail].
 
 Definition c01_tables_ok : bool :=
-  static_table_ok value_statics modelled_statics &&
-  method_table_ok value_method_info (VList []) 5 modelled_list_methods &&
-  method_table_ok value_method_info (VMap []) 6 modelled_map_methods &&
-  method_table_ok value_method_info (VStr []) 3 [n_len; n_string] &&
-  method_table_ok value_method_info (VInt 0) 1 [n_string] &&
-  method_table_ok value_method_info (VFloat fl_zero) 2 [n_string] &&
-  method_table_ok value_method_info (VBool true) 4 [n_string].
+  static_table_ok vcfg_statics modelled_statics &&
+  method_table_ok vcfg_method_info (VList []) 5 modelled_list_methods &&
+  method_table_ok vcfg_method_info (VMap []) 6 modelled_map_methods &&
+  method_table_ok vcfg_method_info (VStr []) 3 [n_len; n_string] &&
+  method_table_ok vcfg_method_info (VInt 0) 1 [n_string] &&
+  method_table_ok vcfg_method_info (VFloat fl_zero) 2 [n_string] &&
+  method_table_ok vcfg_method_info (VBool true) 4 [n_string].
